@@ -52,7 +52,7 @@ def plan(tier: str, rnd: random.Random, logs: dict) -> list[dict]:
     names = sorted(logs)
     quick = tier == "quick"
     max_len = 120 if quick else 400
-    reps = 3 if quick else 8
+    reps = 5 if quick else 24
     out = []
     for rep in range(reps):
         for name in names:
